@@ -285,6 +285,7 @@ class Sim:
         self.trs = []        # [(real, params model, constants model, id, cls)]
         self.tkw = {}
         self.fresh = {}
+        self.checkpoints = []
         self.nid = 0
         self.caller_bufs = []   # buffers the harness passed in (may scribble)
         self.changed = False
@@ -294,6 +295,7 @@ class Sim:
     def check_all(self, opkind):
         for real, m, vid in self.vecs:
             check_vec(real, m, f"vector#{vid}", opkind)
+            check_dict(real.to_dict(), m, f"vector#{vid}.to_dict()", opkind)
             self.ctx.state(m.abstract())
         for real, pm, cm, tid, cls in self.trs:
             check_vec(real.params, pm, f"{cls}#{tid}.params", opkind)
@@ -511,6 +513,43 @@ class Sim:
         if m.hit:
             self.ctx.hit("probe.dict_roundtrip_with_hit_set")
 
+    def op_checkpoint(self):
+        """Keep an exported dictionary (as returned, not copied) for later."""
+        v, m, vid = self.pick_vec()
+        d = v.to_dict()
+        check_dict(d, m, f"vector#{vid}.to_dict()", "checkpoint")
+        self.checkpoints.append((d, m.copy(), vid))
+        if len(self.checkpoints) > 4:
+            self.checkpoints.pop(0)
+        self.log.ev("checkpoint", vid)
+
+    def op_restore(self):
+        """Rebuild a vector from a dictionary exported earlier: it describes
+        the state at export time, whatever happened to the vector since."""
+        from hydrodiy.data.containers import Vector
+        if not self.checkpoints:
+            return
+        k = self.cs.draw("cp", len(self.checkpoints))
+        d, m, vid = self.checkpoints.pop(k)
+        self.log.ev("restore", vid)
+        check_dict(d, m, f"dictionary exported earlier from vector#{vid}",
+                   "restore")
+        try:
+            c = Vector.from_dict(d)
+        except Exception as e:
+            raise Violation("from_dict_failed", f"from_dict of a dictionary "
+                            f"exported earlier from vector#{vid} raised {e!r}",
+                            "restore")
+        self.ctx.hit("probe.restore_from_earlier_export")
+        # the caller owns the dictionary it was given and reuses it
+        self.caller_bufs.append(d)
+        if len(self.vecs) < 4:
+            self.nid += 1
+            self.vecs.append((c, m.copy(), self.nid))
+        else:
+            check_vec(c, m, "vector restored from an earlier export",
+                      "restore")
+
     def op_reject(self):
         v, m, vid = self.pick_vec()
         cs = self.cs
@@ -702,6 +741,7 @@ OPS = [  # (kind, weight, needs)
     ("new", 8, None), ("set_values", 14, "v"), ("set_attr", 9, "v"),
     ("set_item", 9, "v"), ("reset", 5, "v"), ("clone", 7, "v"),
     ("dict_roundtrip", 7, "v"), ("reject", 7, "v"), ("drop", 2, "v"),
+    ("checkpoint", 4, "v"), ("restore", 4, "v"),
     ("scribble", 5, None),
     ("tnew", 5, None), ("tset", 9, "t"), ("treset", 2, "t"),
     ("tread", 14, "t"), ("tdrop", 1, "t"),
@@ -761,6 +801,10 @@ def run(cs, log, ctx):
                     sim.op_clone()
                 elif kind == "dict_roundtrip":
                     sim.op_dict()
+                elif kind == "checkpoint":
+                    sim.op_checkpoint()
+                elif kind == "restore":
+                    sim.op_restore()
                 elif kind == "reject":
                     sim.op_reject()
                 elif kind == "drop":
